@@ -1,4 +1,5 @@
 import CppUModel.Spec.CommandLine
+import CppUModel.Model.JUnit
 /-!
 # Model of `CommandLineArguments::parse` (src/CppUTest/CommandLineArguments.cpp)
 
@@ -439,5 +440,92 @@ def runAllTestsGlue (ps : List ProbeTest) (registryPlugins : List String) (r : P
     calls := [.install nameMemLeak] ++ (runner ps r).calls ++ [.remove nameMemLeak],
     pluginsAfter := removePlugin nameMemLeak (removePlugin nameSetPointer (pluginsDuring registryPlugins)),
     run := runner ps r }
+
+/-! ## what the created outputs show of the configuration
+
+`runAllTests` prints the shuffle seed once before the loop and `printTestRun(i, n)` at every repetition
+(`TestOutput::printTestRun`: only when `n > 1`); `createJUnitOutput(packageName)` hands the `-k` package to the
+JUnit writer, which puts it into every file name (`JUnitTestOutput::createFileName`, model and constants of C16:
+`JUnit.createFileName`); `createTeamCityOutput` makes the TeamCity writer, a console output that prints service
+messages. -/
+
+def listing (c : Config) : Bool := c.listGroups || c.listNames || c.listLocations
+
+/-- a console-like output exists in the REAL runner (`ConsoleTestOutput`, or `TeamCityTestOutput` which derives from
+    it, or the console half of the composite) — `JUnitTestOutput::printBuffer` drops everything -/
+def printsToStdout (c : Config) : Bool :=
+  match c.output with
+  | .junit => c.verbose || c.veryVerbose
+  | .teamcity => true
+  | .eclipse => true
+
+/-- the number printed after "Test order shuffling enabled with seed: ", if that line is printed on an output that
+    shows text (`shows` = `hasConsole` for the recording runner, `printsToStdout` for the real one) -/
+def seedLine (c : Config) (shows : Bool) : Option Nat :=
+  if c.shuffling && !listing c && shows then some c.shuffleSeed else none
+
+/-- the `(i, n)` of every "Test run i of n" line -/
+def runHeadersFrom (n : Nat) : Nat → Nat → List (Nat × Nat)
+  | _, 0 => []
+  | i, k + 1 => (i, n) :: runHeadersFrom n (i + 1) k
+
+def runHeaders (c : Config) (shows : Bool) : List (Nat × Nat) :=
+  if !listing c && shows && c.repeatCount > 1 then runHeadersFrom c.repeatCount 1 c.repeatCount else []
+
+/-- lexicographic order on byte strings (unsigned bytes), as `std::string::compare` -/
+def bytesLt : Bytes → Bytes → Bool
+  | [], [] => false
+  | [], _ :: _ => true
+  | _ :: _, [] => false
+  | x :: xs, y :: ys => if x < y then true else if y < x then false else bytesLt xs ys
+
+def insertBytes (x : Bytes) : List Bytes → List Bytes
+  | [] => [x]
+  | y :: ys => if x == y then y :: ys else if bytesLt x y then x :: y :: ys else y :: insertBytes x ys
+
+/-- sorted, without duplicates -/
+def sortUniqueBytes (l : List Bytes) : List Bytes := l.foldr insertBytes []
+
+/-- group blocks of the registry in run order (`TestRegistry::runAllTests`: group start/end events do not depend on
+    the filters); the JUnit writer learns the group name when a test of the block STARTS (`printCurrentTestStarted`,
+    also for ignored tests), so a block without a selected test is written under the empty name.
+    `cur` = group of the current block and whether one of its tests was selected so far. -/
+def blockNames (c : Config) : Option (Bytes × Bool) → List ProbeTest → List Bytes
+  | none, [] => []
+  | some (g, any), [] => [if any then g else []]
+  | none, p :: ps => blockNames c (some (p.group, selects c p.group p.name)) ps
+  | some (g, any), p :: ps =>
+    if p.group == g then blockNames c (some (g, any || selects c p.group p.name)) ps
+    else (if any then g else []) :: blockNames c (some (p.group, selects c p.group p.name)) ps
+
+/-- groups that have a selected test -/
+def selectedGroups (c : Config) (ps : List ProbeTest) : List Bytes :=
+  (ps.filter fun p => selects c p.group p.name).map (·.group)
+
+/-- names of the files the JUnit writer opens over one or more runs of the registry, each carrying the `-k`
+    package name; sorted, unique.  When the order is shuffled the blocks are `rand()`'s business: only the files of
+    groups with a selected test are listed (the harness drops the empty-name files in that case). -/
+def junitFiles (c : Config) (ps : List ProbeTest) : List Bytes :=
+  if c.output == .junit && !listing c && c.repeatCount > 0
+  then sortUniqueBytes ((if c.shuffling then selectedGroups c ps else blockNames c none ps).map
+         (JUnit.createFileName c.packageName))
+  else []
+
+/-- TeamCity service messages appear iff the TeamCity writer was created and the registry was run -/
+def teamcityMessages (c : Config) : Bool := c.output == .teamcity && !listing c && c.repeatCount > 0
+
+/-! ### `MemoryReporterPlugin::parseArguments`: `-pmemoryreport=<type>` -/
+
+inductive MemFormatter | normal | code | none
+deriving DecidableEq, Repr
+
+/-- `argument.replace("-pmemoryreport=", "")` -/
+def memFormatterType (a : Bytes) : Bytes := replaceAll a litMemoryReport []
+
+/-- `createMemoryFormatter(type)` -/
+def memFormatterKind (ty : Bytes) : MemFormatter :=
+  if ty == [110, 111, 114, 109, 97, 108] then .normal          -- normal
+  else if ty == [99, 111, 100, 101] then .code                  -- code
+  else .none
 
 end CommandLine
